@@ -231,6 +231,81 @@ if CLUSTER_READY:
         design="6/C09, 12.5", technique=CLUSTER_TECH),
     })
 
+# third round (DESIGN 12.8): what came under contract since the texts above were written, and what no longer holds of the notes
+ROUND3 = {
+    "C01": (" Also run here: Receive.got_message / decrypt_data / encrypt_data (C02's contracts) and Order.got_message / "
+            "Receive.got_message_good through the real tables (C03's), so that 'matching codes => every message is delivered' sees a "
+            "change in how an authentic message is handed on.", ""),
+    "C02": (" Machine level (mailbox-cluster engine over the real tables and output bodies, shared with C14): an echo of our own "
+            "message never reaches Order; a phase is handed to Order only if it was not yet in Mailbox._processed, is recorded "
+            "there, and the set never loses a phase in any entry point (also across reconnects); side and phase reach Order as "
+            "the server message carried them; an undecryptable peer message ends in WrongPasswordError.", ""),
+    "C03": (" The hops run through the real Automat tables (Boss.send, Boss._got_phase, Send.send, Send.got_verified_key, "
+            "Mailbox.rx_message_theirs, Order.got_message, Receive.got_message_good, the send_message/received API methods) and "
+            "the composition is machine-checked as three lemmas whose hypotheses are the contracts' clauses imported by name "
+            "(k-th send goes out once under label k; an accepted numeric message is the peer's k-th; the reorder-buffer step keeps "
+            "'received is a prefix of sent' for any inbound phase). Machine level: an un-echoed message stays in "
+            "_pending_outbound and is re-submitted on every connection; the phase counters never go back.",
+            " Not machine-checked: the cryptographic link (AEAD unforgeability) and the outer induction over the message sequence."),
+    "C04": (" Also under contract now: Receiver._handle_text (printed once, terminal-safe, then acked), Sender._build_offer (text / "
+            "file / directory / block-device branches: what is offered is what will be streamed), the directory branch of "
+            "_send_file, _check_verifier, Receiver._go/_get_data/_handle_code/_build_transit/_parse_transit; every member of the "
+            "received archive is unpacked exactly once into the announced destination (C05's _write_directory loop).",
+            " Not under contract: Sender._go (path enumeration does not finish), the go() closure wrappers, numfiles/numbytes."),
+    "C05": (" _write_directory: every iteration unpacks exactly its archive member into the announced destination (also explicit "
+            "directory entries).", ""),
+    "C06": (" Also under contract now: _writeToConsumer, disconnectConsumer, writeToFile, FileConsumer.*, the producer "
+            "pass-throughs, Connection.write; lemma:stream_induction_step (hypotheses imported from the contracts); the hex "
+            "big-endian round trip is derived from its definition for widths 4 and 24.", ""),
+    "C07": (" Also under contract now: _ThereCanBeOnlyOne.run/_cancel, there_can_be_only_one, the _done closure of _not_forever, "
+            "Connection.startNegotiation, InboundConnectionFactory.buildProtocol/connectionWasMade, Common._start_connector and "
+            "Common._connect (every attempt contends, the listener contends, one race under one 2*TIMEOUT deadline).",
+            " Still not under contract: Common.connect (inlineCallbacks wrapper), get_connection_hints/_get_direct_hints."),
+    "C10": (" Inbound.handle_open is verified on its real body (the former stub assumption is gone); the glue between the two sides is "
+            "five discharged lemmas (new_connection_stream, stream_prefix_contiguous, ack_keeps_oldest_unacked_bound, "
+            "write_keeps_oldest_unacked, exactly_once_step); Outbound.send_if_connected; the L2-to-Manager hand-over "
+            "(DilatedConnectionProtocol.process_inbound_queue/select/dataReceived) and the subchannel's delivery of early "
+            "OPEN/DATA/CLOSE (C13's contracts) are run here too.", " The induction over whole executions is argued from the step lemma."),
+    "C11": (" The inbound loops of one link (C12: add_and_parse, add_and_unframe, dataReceived, connectionLost, the framer's "
+            "handshake matching under any fragmentation) are run here too.", ""),
+    "C12": (" Now also: _Framer.add_and_parse, _Record.add_and_unframe and DilatedConnectionProtocol.dataReceived/connectionLost "
+            "on their real (interleaved) bodies with a ghost byte stream - for any chunking the tokens are exactly the frames of "
+            "the stream, nothing before the exact prologue / relay reply, Disconnect => exactly one loseConnection and nothing "
+            "reaches the manager; a stateful Noise model (nonce counters) with per-packet loop invariants and "
+            "lemma:multi_packet_content give content equality for every payload length; the big-endian round trip follows from "
+            "its definition.", " SUPERSEDES the note: the loops and multi-packet content ARE proved now; still assumed: struct "
+            "implements the big-endian definition, utf-8 codec round trip, Noise AEAD; connectionMade/Connector.build_protocol "
+            "(C17 covers build_protocol)."),
+    "C13": (" SubchannelConnectorEndpoint.connect and SubchannelListenerEndpoint.listen (inlineCallbacks generators) are under "
+            "contract now: wait first, one id of this side's parity, one OPEN, one SubChannel registered before its protocol is "
+            "connected, held OPENs handed over at listen; the real SubChannel construction runs; Manager.send_open / "
+            "subchannel_local_open / _register_subprotocol_factory.", " SUPERSEDES the note about the endpoints."),
+    "C15": (" Outbound.resumeProducing: a resume from the transport ends un-paused unless the transport paused again inside the loop "
+            "(c15.a-wake-up-is-never-dropped); Outbound.send_if_connected.", ""),
+    "C16": (" Outbound.send_if_connected (a ping really goes out whenever there is a connection, whatever the flow-control state) "
+            "is run here too.", ""),
+    "C17": (" Ghost invariant created <= tracked: every Deferred the Connector creates (deferLater) is in _pending_connectors, "
+            "required and re-established by _schedule_connection, _use_hints (five loops) and start; stop() cancels every one of "
+            "them; the real Connector construction runs inside Manager._start_connecting; Connector.build_protocol; "
+            "lemma:listening_port_tracked.", ""),
+    "C20": (" Also under contract now: endpoint_from_hint_obj (an endpoint only for a supported hint with str host and int port), "
+            "describe_hint_obj, Connector._schedule_connection / _connect / _use_hints (five loops: grouping and sorting by "
+            "priority never raise) / got_hints through the real table, Manager.rx_HINTS rows (C11's contract), the relay round "
+            "trip for the relay hints this side builds, transit Common._connect's use of the parsed hints. Defect found and "
+            "repaired (d1f4484): a hint without endpoint was scheduled as _connect(None).",
+            " SUPERSEDES 'Connector._use_hints is not under contract yet'. Still not under contract: get_connection_hints, "
+            "Connector._publish_hints / Manager.send_hints (encode side)."),
+    "C14": (" Thorough tier additionally runs the same cluster with the application in delegated mode (every W.* callback may "
+            "re-enter send()/close() synchronously).", ""),
+    "C08": (" A reconnection attempt that fails (onClose without onOpen) and every connection loss record no verdict. Thorough tier "
+            "additionally runs the cluster in delegated mode (re-entrant callbacks).", ""),
+    "C09": (" New environment event: a reconnection attempt whose WebSocket negotiation fails; connection loss is never a verdict.", ""),
+}
+for pid, (t_add, n_add) in ROUND3.items():
+    if pid in CLAIMED:
+        CLAIMED[pid]["text"] += t_add
+        CLAIMED[pid]["note"] += n_add
+
 checks = []
 for pid, c in CLAIMED.items():
     checks.append({
